@@ -55,6 +55,8 @@ def make_case(ctx, idx):
     prof = gen.profile("c08", locals=["e1", "e2", "a1", "x.y"], prefixes=["ex", "ex2", "other", "ex_1"],
                        ns_uris=["http://ex.org/", "http://ex.org/sub/", "urn:x:"], attr_locals=["tag", "v"],
                        uris=("http://ex.org/e1", "http://ex.org/e2", "urn:x:a1", "http://ex.org/sub/x.y", "http://x.org/y"))
+    if r.random() < 0.3:
+        prof = dict(prof, kinds=("Activity", "Activity", "Activity", "Entity", "Usage"), p_attrs_op=0.4, locals=["a1", "a2"], max_steps=14)
     ops = gen.Gen(r, prof).program()
     if r.random() < 0.4:
         ops = near_twin(ops, r)
